@@ -268,7 +268,9 @@ def r2_lookup_order(ctx, rep):
     # (f'') a source file has a page only when incl_src is on (FortranSourceFile.visible records exactly that): the href of a
     # [[file]] reference must depend on it, otherwise the link points at a page that is never written
     for h in hrefs:
-        ok = any("visible" in c or "incl_src" in c for c in h.cond_texts_x(fn))
+        # (the setting itself: a `visible` flag is not enough - files of extra_filetypes do not carry one, and a
+        # `getattr(x, "visible", True)` lets them through)
+        ok = any("incl_src" in c for c in h.cond_texts_x(fn))
         rep.ob("a reference to a source file is only linked when source pages are written", ok,
                "the href is set under a condition on `incl_src` / the item's `visible` flag" if ok else
                "the href is set for every item found: with `incl_src: false`, `[[prog.f90]]` links to sourcefile/prog.f90.html, which is "
@@ -482,12 +484,10 @@ def r8_found_items_have_urls(ctx, rep):
     st = dict_const(py, "sourceform", "SUBLINK_TYPES")
     gd = py.func("FortranBase.get_dir")
     gu = py.ifunc("FortranBase.get_url")
-    selfs = isinstance_tuples(gd, "self")
-    pars = isinstance_tuples(gd, "self.parent")
-    if len(selfs) != 2 or len(pars) != 1:
-        raise AnalysisError("FortranBase.get_dir: expected isinstance(self, A) or (isinstance(self, B) and isinstance(self.parent, P))")
-    uncond, cond = (selfs[0], selfs[1]) if "FortranSourceFile" in selfs[0] else (selfs[1], selfs[0])
-    parents_ok = pars[0]
+    if not isinstance_tuples(gd, "self"):
+        raise AnalysisError("FortranBase.get_dir: no test of the entity's class found")
+    parents_ok = sorted(c for c in py.classes if c.startswith("Fortran") and py.is_subclass(c, "FortranContainer")
+                        and c09.get_dir_gives_page(py, "FortranType", c))
     anchored = [c for t in isinstance_tuples(gu, "self") for c in t]
     if len(anchored) < 4:
         raise AnalysisError("FortranBase.get_url: anchored-entity tuple not found")
@@ -505,9 +505,9 @@ def r8_found_items_have_urls(ctx, rep):
             for o in owners:
                 if r is not None and r[0] != "FortranBase":
                     how = f"{r[0]}.get_url override"
-                elif sub(e, uncond):
+                elif c09.get_dir_gives_page(py, e, "FortranSpoof") is True:
                     how = "own page"
-                elif sub(e, cond) and sub(o, parents_ok):
+                elif c09.get_dir_gives_page(py, e, o) is True:
                     how = "own page (declared in a program unit)"
                 elif sub(e, anchored):
                     how = "anchor on the owner's page"
